@@ -1,3 +1,219 @@
-From Coq Require Import List Arith ZArith Bool.
+(* C06 — deblending only refines segments and is independent of worker scheduling.
+   Property theorems only; each is closed by [exact] of a lemma of C06_Proofs.
+
+   Reading guide.  [deblend_sources ny nx seg raw warns inmap npix labels_arg nlevels
+   (cn, cd) mode_ok relabel dtmax nproc order] is the model of
+   photutils.segmentation.deblend.deblend_sources (C06_Model.v): [seg] the input label
+   array (ny x nx), contrast = cn/cd, [raw l] WHATEVER apply_watershed returned for parent
+   l ([None]: deblend_source returned before the watershed) — it is universally
+   quantified, nothing is assumed about it: the footprint guard, the one-label test and
+   the consecutive relabel of deblend_source are part of the model; [nproc]/[order]: the
+   nproc>1 code path where the futures complete in the order [order].
+   [valid_schedule] = every submitted task completes exactly once (the completion order
+   is a permutation of the submission indices).  [Ok r]: the call returned;
+   [r_data r] the output label array, [r_dmap r] the parent -> children map
+   (deblended_labels_inverse_map), [r_input r] the caller's array afterwards.
+   Pixels are (y, x) with y < ny, x < nx; [at2 a y x] reads a pixel. *)
+From Coq Require Import List Arith ZArith Bool Permutation.
 From PV Require Import lib.Cases C06_Model C06_Proofs.
 Import ListNotations.
+
+(* ---------------- refinement ---------------- *)
+(* the set of non-zero pixels is unchanged *)
+Theorem nonzero_support_unchanged : forall ny nx seg raw warns inmap npix labels_arg nlevels cn cd mode_ok relabel dtmax nproc order r,
+  deblend_sources ny nx seg raw warns inmap npix labels_arg nlevels (cn, cd) mode_ok relabel dtmax nproc order = Ok r ->
+  cn <> cd -> valid_schedule ny nx seg npix labels_arg order ->
+  forall y x, y < ny -> x < nx -> (at2 (r_data r) y x <> 0 <-> at2 seg y x <> 0).
+Proof. exact nonzero_support_unchanged_lemma. Qed.
+Print Assumptions nonzero_support_unchanged.
+
+(* every entry parent -> children of the map: the parent is a label of the input; the
+   children are distinct non-zero labels; the pixels carrying a child label are EXACTLY the
+   parent's pixels; no child is empty *)
+Theorem children_partition_parent : forall ny nx seg raw warns inmap npix labels_arg nlevels cn cd mode_ok relabel dtmax nproc order r,
+  deblend_sources ny nx seg raw warns inmap npix labels_arg nlevels (cn, cd) mode_ok relabel dtmax nproc order = Ok r ->
+  cn <> cd -> valid_schedule ny nx seg npix labels_arg order ->
+  forall p cs, In (p, cs) (r_dmap r) ->
+    (p <> 0 /\ exists y x, y < ny /\ x < nx /\ at2 seg y x = p) /\
+    NoDup cs /\ ~ In 0 cs /\
+    (forall y x, y < ny -> x < nx -> (In (at2 (r_data r) y x) cs <-> at2 seg y x = p)) /\
+    (forall c, In c cs -> exists y x, y < ny /\ x < nx /\ at2 (r_data r) y x = c).
+Proof. exact children_partition_parent_lemma. Qed.
+Print Assumptions children_partition_parent.
+
+(* ... and there are two or more children *)
+Theorem children_at_least_two : forall ny nx seg raw warns inmap npix labels_arg nlevels cn cd mode_ok relabel dtmax nproc order r,
+  deblend_sources ny nx seg raw warns inmap npix labels_arg nlevels (cn, cd) mode_ok relabel dtmax nproc order = Ok r ->
+  cn <> cd -> valid_schedule ny nx seg npix labels_arg order ->
+  forall p cs, In (p, cs) (r_dmap r) -> 2 <= length cs.
+Proof. exact children_at_least_two_lemma. Qed.
+Print Assumptions children_at_least_two.
+
+(* the map is a function (one entry per parent), a child belongs to one parent only, and
+   "output label is a child of p" <-> "input label is p" pixel by pixel *)
+Theorem map_matches_pixels : forall ny nx seg raw warns inmap npix labels_arg nlevels cn cd mode_ok relabel dtmax nproc order r,
+  deblend_sources ny nx seg raw warns inmap npix labels_arg nlevels (cn, cd) mode_ok relabel dtmax nproc order = Ok r ->
+  cn <> cd -> valid_schedule ny nx seg npix labels_arg order ->
+  NoDup (map fst (r_dmap r)) /\
+  (forall p cs p' cs' c, In (p, cs) (r_dmap r) -> In (p', cs') (r_dmap r) -> In c cs -> In c cs' -> p = p') /\
+  (forall y x p cs, y < ny -> x < nx -> In (p, cs) (r_dmap r) ->
+     (In (at2 (r_data r) y x) cs <-> at2 seg y x = p)).
+Proof. exact map_matches_pixels_lemma. Qed.
+Print Assumptions map_matches_pixels.
+
+(* every other segment keeps exactly its pixels, under one non-zero label q', and
+   q' = q when relabel=False *)
+Theorem others_untouched : forall ny nx seg raw warns inmap npix labels_arg nlevels cn cd mode_ok relabel dtmax nproc order r,
+  deblend_sources ny nx seg raw warns inmap npix labels_arg nlevels (cn, cd) mode_ok relabel dtmax nproc order = Ok r ->
+  cn <> cd -> valid_schedule ny nx seg npix labels_arg order ->
+  forall q, q <> 0 -> (exists y x, y < ny /\ x < nx /\ at2 seg y x = q) ->
+    ~ In q (map fst (r_dmap r)) ->
+    exists q', q' <> 0 /\ (relabel = false -> q' = q) /\
+      forall y x, y < ny -> x < nx -> (at2 (r_data r) y x = q' <-> at2 seg y x = q).
+Proof. exact others_untouched_lemma. Qed.
+Print Assumptions others_untouched.
+
+(* relabel=True: .labels (sorted distinct non-zero values of the output) is 1..N *)
+Theorem labels_consecutive_when_relabel : forall ny nx seg raw warns inmap npix labels_arg nlevels cn cd mode_ok relabel dtmax nproc order r,
+  deblend_sources ny nx seg raw warns inmap npix labels_arg nlevels (cn, cd) mode_ok relabel dtmax nproc order = Ok r ->
+  cn <> cd -> valid_schedule ny nx seg npix labels_arg order ->
+  relabel = true -> exists n, uniq_labels (concat (r_data r)) = seq 1 n.
+Proof. exact labels_consecutive_when_relabel_lemma. Qed.
+Print Assumptions labels_consecutive_when_relabel.
+
+(* PARTIAL.  Full clause: "each child >= npixels".  Proved under hypothesis (W): every label
+   of the array returned by apply_watershed for a parent covers >= npixels pixels of the
+   cutout ([watershed_big]; skimage.segmentation.watershed never shrinks a marker and
+   _detect_sources only keeps markers of >= npixels pixels — library behaviour, not modelled;
+   the Python oracle tests the clause on every implementation output).  Conclusion: each
+   child has a duplicate-free list of >= npixels pixels of the output carrying its label. *)
+Theorem child_size_ge_npixels_partial : forall ny nx seg raw warns inmap npix labels_arg nlevels cn cd mode_ok relabel dtmax nproc order r,
+  deblend_sources ny nx seg raw warns inmap npix labels_arg nlevels (cn, cd) mode_ok relabel dtmax nproc order = Ok r ->
+  cn <> cd -> valid_schedule ny nx seg npix labels_arg order ->
+  (forall l, watershed_big ny nx seg npix l (raw l)) ->
+  forall p cs c, In (p, cs) (r_dmap r) -> In c cs ->
+    exists ps : list (nat * nat), NoDup ps /\ npix <= length ps /\
+      forall y x, In (y, x) ps -> y < ny /\ x < nx /\ at2 (r_data r) y x = c.
+Proof. exact child_size_ge_npixels_partial_lemma. Qed.
+Print Assumptions child_size_ge_npixels_partial.
+
+(* contrast = 1: the input is returned unchanged (arrays and map), before the mode and the
+   labels are even looked at *)
+Theorem contrast_one_is_identity :
+  forall ny nx seg raw warns inmap npix labels_arg nlevels c mode_ok relabel dtmax nproc order,
+  (1 <= nlevels)%Z -> (0 <= c)%Z ->
+  deblend_sources ny nx seg raw warns inmap npix labels_arg nlevels (c, c) mode_ok relabel dtmax nproc order =
+  Ok {| r_data := seg; r_dmap := inmap; r_npm := []; r_nmk := []; r_input := seg |}.
+Proof. exact contrast_one_lemma. Qed.
+Print Assumptions contrast_one_is_identity.
+
+(* the model writes only into its copy: whenever the call returns, the caller's array is
+   what it was (the harness snapshots the real array on every call) *)
+Theorem input_not_written :
+  forall ny nx seg raw warns inmap npix labels_arg nlevels contrast mode_ok relabel dtmax nproc order r,
+  deblend_sources ny nx seg raw warns inmap npix labels_arg nlevels contrast mode_ok relabel dtmax nproc order = Ok r ->
+  r_input r = seg.
+Proof. exact input_not_written_lemma. Qed.
+Print Assumptions input_not_written.
+
+(* the per-source tail of deblend_source enforces, for ANY watershed output, (G) the
+   children's footprint is the parent's mask inside its slice and (R) the children are
+   exactly 1..k with k >= 2 — so these are theorems, not hypotheses, of the clauses above *)
+Theorem per_source_result_wellformed : forall ny nx seg l r child,
+  In l (uniq_labels (segvals ny nx seg)) ->
+  deblend_source_post ny nx seg l (slice_of ny nx seg l) r = PSome child ->
+  (forall y x, in_slice (slice_of ny nx seg l) y x = true ->
+     (sg ny nx seg y x = l <->
+      child (cy (slice_of ny nx seg l) y) (cx (slice_of ny nx seg l) x) <> 0)) /\
+  exists k, 2 <= k /\ uniq_labels (child_vals (slice_of ny nx seg l) child) = seq 1 k.
+Proof. exact per_source_lemma. Qed.
+Print Assumptions per_source_result_wellformed.
+
+(* ---------------- schedules ---------------- *)
+(* results[idx] = future.result() over as_completed: for EVERY permutation of the
+   completion events the slot list is the list of results in submission order (or the
+   call raises, iff some worker raised — whichever future completes first) *)
+Theorem collect_order_independent : forall (n : nat) (results : list R) (events : list (nat * R)),
+  length results = n -> Permutation events (combine (seq 0 n) results) ->
+  collect n events =
+  if existsb (fun r => is_fail (fst r)) results then None else Some (map Some results).
+Proof. exact collect_order_independent_lemma. Qed.
+Print Assumptions collect_order_independent.
+
+(* the nproc>1 code path under any completion order = the serial loop *)
+Theorem parallel_path_equals_serial_loop : forall ny nx seg raw warns labels order s0,
+  Permutation order (seq 0 (length labels)) ->
+  parallel ny nx seg raw warns labels order s0 =
+  match serial ny nx seg raw warns labels s0 with None => ParRaise | Some s => ParOk s end.
+Proof. exact parallel_eq_serial. Qed.
+Print Assumptions parallel_path_equals_serial_loop.
+
+(* hence the whole outcome (returned image, map, warnings lists, or the exception class) is
+   the same for every nproc and every completion order *)
+Theorem schedule_independent :
+  forall ny nx seg raw warns inmap npix labels_arg nlevels contrast mode_ok relabel dtmax nproc order,
+  valid_schedule ny nx seg npix labels_arg order ->
+  deblend_sources ny nx seg raw warns inmap npix labels_arg nlevels contrast mode_ok relabel dtmax nproc order =
+  deblend_sources ny nx seg raw warns inmap npix labels_arg nlevels contrast mode_ok relabel dtmax 1 [].
+Proof. exact schedule_independent_lemma. Qed.
+Print Assumptions schedule_independent.
+
+(* ---------------- non-vacuity ---------------- *)
+(* two parents (labels 3 and 5, label gap, max label 5), both split in two by the
+   "watershed"; 4 tasks would be boring, so: 2 tasks completing in reverse order *)
+Definition ex_seg : img2 := [[3;3;3;3];[0;0;7;0];[5;5;5;5]].
+Definition ex_raw (l : nat) : option img2 :=
+  if l =? 3 then Some [[4;4;9;9]] else if l =? 5 then Some [[1;1;1;2]] else None.
+Definition ex_warns (l : nat) : bool * bool := (false, false).
+
+Example ex_relabel_false :
+  deblend_sources 3 4 ex_seg ex_raw ex_warns [] 1 None 32 (1, 1000)%Z true false None 2 [1;0]
+  = Ok {| r_data := [[8;8;9;9];[0;0;7;0];[10;10;10;11]]; r_dmap := [(3, [8;9]); (5, [10;11])];
+          r_npm := []; r_nmk := []; r_input := ex_seg |}.
+Proof. vm_compute. reflexivity. Qed.
+
+Example ex_relabel_true :
+  deblend_sources 3 4 ex_seg ex_raw ex_warns [] 1 None 32 (1, 1000)%Z true true None 2 [1;0]
+  = Ok {| r_data := [[2;2;3;3];[0;0;1;0];[4;4;4;5]]; r_dmap := [(3, [2;3]); (5, [4;5])];
+          r_npm := []; r_nmk := []; r_input := ex_seg |}.
+Proof. vm_compute. reflexivity. Qed.
+
+Example ex_valid_schedule : valid_schedule 3 4 ex_seg 1 None [1;0].
+Proof. intros labels E. vm_compute in E. inversion E. subst. cbn. apply perm_swap. Qed.
+
+(* label subset in non-sorted order with a duplicate: still a refinement *)
+Example ex_label_subset :
+  deblend_sources 3 4 ex_seg ex_raw ex_warns [] 1 (Some [5;3;5]) 32 (0, 1)%Z true false None 1 []
+  = Ok {| r_data := [[10;10;11;11];[0;0;7;0];[12;12;12;13]]; r_dmap := [(5, [12;13]); (3, [10;11])];
+          r_npm := []; r_nmk := []; r_input := ex_seg |}.
+Proof. vm_compute. reflexivity. Qed.
+
+(* the footprint guard: a watershed output that misses a parent pixel raises ValueError,
+   under every schedule *)
+Example ex_guard :
+  deblend_sources 3 4 ex_seg (fun l => if l =? 3 then Some [[4;4;0;9]] else ex_raw l) ex_warns
+    [] 1 None 32 (1, 1000)%Z true false None 2 [1;0] = Err ValueErr.
+Proof. vm_compute. reflexivity. Qed.
+
+(* hypothesis (W) of child_size_ge_npixels_partial is satisfiable (npixels = 1 here) *)
+Example ex_watershed_big : forall l, watershed_big 3 4 ex_seg 1 l (ex_raw l).
+Proof.
+  assert (one : forall sl (child : nat -> nat -> nat) j y0 x0,
+            in_slice sl y0 x0 = true -> child (cy sl y0) (cx sl x0) = j ->
+            atleast 1 (fun y x => in_slice sl y x = true /\ child (cy sl y) (cx sl x) = j)).
+  { intros sl child j y0 x0 H1 H2. exists [(y0, x0)]. split; [constructor; [intros []|constructor]|].
+    split; [apply le_n|]. intros y x [E|[]]. inversion E; subst y x. split; assumption. }
+  intros l. unfold ex_raw. destruct (l =? 3) eqn:E3.
+  - apply Nat.eqb_eq in E3. subst l. intros j _ Hin. vm_compute in Hin.
+    destruct Hin as [<-|[<-|[<-|[<-|[]]]]];
+      [apply (one _ _ _ 0 0)|apply (one _ _ _ 0 0)|apply (one _ _ _ 0 2)|apply (one _ _ _ 0 2)]; reflexivity.
+  - destruct (l =? 5) eqn:E5; [|exact I].
+    apply Nat.eqb_eq in E5. subst l. intros j _ Hin. vm_compute in Hin.
+    destruct Hin as [<-|[<-|[<-|[<-|[]]]]];
+      [apply (one _ _ _ 2 0)|apply (one _ _ _ 2 0)|apply (one _ _ _ 2 0)|apply (one _ _ _ 2 3)]; reflexivity.
+Qed.
+
+Example ex_collect :
+  collect 3 [(2, (PNone, (true, false))); (0, (PNone, (false, false))); (1, (PNone, (false, true)))]
+  = Some [Some (PNone, (false, false)); Some (PNone, (false, true)); Some (PNone, (true, false))].
+Proof. reflexivity. Qed.
